@@ -62,6 +62,12 @@ def scenario_interleaved(kind, n, bs, order):
             ds = ds.shuffle(True, rng=rng, buffer_size=bs)
         elif kind == 'onetime':
             ds = ds.shuffle(False, rng=rng)
+        elif kind == 'reshuffle-catch':
+            ds = ds.shuffle(True, rng=rng).catch()
+        elif kind == 'reshuffle-items-catch':
+            ds = ds.shuffle(True, rng=rng).items().catch()
+        elif kind == 'reshuffle-catch-items':
+            ds = ds.shuffle(True, rng=rng).catch().items()
         k = max(order) + 1
         its = [None] * k
         outs = [[] for _ in range(k)]
@@ -98,14 +104,17 @@ def scenario_composed(kind, n, comp):
 
 
 def _task(args):
-    name, params = args
+    name, params = args[:2]
+    prop = args[2] if len(args) > 2 else 'C12'
     st = collections.Counter()
     viols = {}
 
     def bad(key, what, replay):
+        if prop == 'C03' and not key.startswith('items-misaligned'):
+            return          # C03 only judges key / example alignment; permutation-ness is C12's business
         if key not in viols:
-            viols[key] = common.Violation('C12', key, what, dict(replay, engine='choicemc', scenario=name,
-                                                                   params=params)).to_json()
+            viols[key] = common.Violation(prop, key, what, dict(replay, engine='choicemc', scenario=name,
+                                                                 params=params)).to_json()
 
     if name == 'single':
         kind, n, bs, epochs = params
@@ -135,6 +144,12 @@ def _task(args):
                 st['states'] += 1
                 st['transitions'] += len(order)
                 for i, out in enumerate(outs):
+                    if 'items' in kind:
+                        if any(kk != f'k{v}' for kk, v in out):
+                            bad(f'items-misaligned/{kind}/iterators-in-flight',
+                                f'n={n} next() order {list(order)} rng answers {choices}: iterator {i} paired {out}',
+                                {'choices': choices, 'order': list(order)})
+                        out = [v for _, v in out]
                     if not multiset_ok(out, n):
                         tag = 'iterators-in-flight'
                         bad(f'not-a-permutation/{kind}/{tag}',
@@ -203,6 +218,9 @@ def jobs(tier):
         for bs in (1, 2, 3):
             if n <= 2 or bs <= 2:
                 out.append(('interleaved', ('local', n, bs, (n, n))))
+    for n in (2, 3):
+        for kind in ('reshuffle-catch', 'reshuffle-items-catch', 'reshuffle-catch-items'):
+            out.append(('interleaved', (kind, n, None, (n, n))))
     for n in (1, 2):
         out.append(('interleaved', ('reshuffle', n, None, (n, n, n))))
         out.append(('interleaved', ('local', n, 2, (n, n, n))))
@@ -216,6 +234,11 @@ def jobs(tier):
     for n in range(0, 7 if q else 9):
         out.append(('seeded', (n, list(range(base, base + S)))))
     return out
+
+
+def alignment_jobs(tier):
+    """The scenarios that C03 uses: key / example alignment of items() over unordered stages."""
+    return [j + ('C03',) for j in jobs(tier) if 'items' in str(j[1][0])]
 
 
 def run(tier):
